@@ -236,6 +236,9 @@ var ehPool = [][]step{
 	{{Kind: "error_handler", ID: "redirfail", Name: "e1", Real: "ok"}},
 	{{Kind: "error_handler", ID: "redirfail", Name: "e1", Real: "ok", Cond: "type(Error) in [authorization_error, communication_error]"}, {Kind: "error_handler", ID: "redir", Name: "e2", Real: "ok"}},
 	{{Kind: "error_handler", ID: "probe:e1", Name: "e1", Cond: "hdr"}, {Kind: "error_handler", ID: "probe:e2", Name: "e2", Cond: "hdr"}, {Kind: "error_handler", ID: "www", Name: "e3", Real: "ok"}},
+	// redirects whose target is the very location the failing request was made for (relative and absolute)
+	{{Kind: "error_handler", ID: "redirself", Name: "e1", Real: "ok"}},
+	{{Kind: "error_handler", ID: "redirselfabs", Name: "e1", Real: "ok", Cond: "type(Error) != precondition_error"}, {Kind: "error_handler", ID: "redirself", Name: "e2", Real: "ok"}},
 }
 
 func (g *gen) pipeline(id string) pipeline {
@@ -385,6 +388,8 @@ func c01Prototypes(c *config.Configuration) {
 	p.ErrorHandlers = append(p.ErrorHandlers,
 		config.Mechanism{ID: "def", Type: "default"},
 		config.Mechanism{ID: "redir", Type: "redirect", Config: config.MechanismConfig{"to": "http://login.test/in?o={{ .Request.URL.Path | urlenc }}", "code": 303}},
+		config.Mechanism{ID: "redirself", Type: "redirect", Config: config.MechanismConfig{"to": "{{ .Request.URL.Path }}"}},
+		config.Mechanism{ID: "redirselfabs", Type: "redirect", Config: config.MechanismConfig{"to": "{{ .Request.URL.Scheme }}://{{ .Request.URL.Host }}{{ .Request.URL.Path }}", "code": 307}},
 		config.Mechanism{ID: "redirfail", Type: "redirect", Config: config.MechanismConfig{"to": `http://login.test/{{ fail "render error" }}`}},
 		config.Mechanism{ID: "www", Type: "www_authenticate", Config: config.MechanismConfig{"realm": "verif"}},
 	)
@@ -393,7 +398,7 @@ func c01Prototypes(c *config.Configuration) {
 func TestC01(t *testing.T) {
 	r := core.Begin("C01", "exploration")
 	r.Rule("generated rules (1-3 authenticators incl. real anonymous/unauthorized, 0-3 authorizers/contextualizers incl. real allow/deny/cel, 0-2 finalizers, `if` conditions " +
-		"driven to true/false/evaluation-error by a request header, continue-on-error and fallback flags, 11 error-pipeline shapes incl. conditional, non-applicable, failing and " +
+		"driven to true/false/evaluation-error by a request header, continue-on-error and fallback flags, 13 error-pipeline shapes incl. conditional, non-applicable, failing and " +
 		"panicking handlers, redirect, www-authenticate), with and without default rule and partial rules inheriting from it, each on its own route in the three assembled services. " +
 		"Plans per rule: all-ok, exhaustive one-deviating-step (every step x every outcome x every condition state), failing step x every error-pipeline state, plus random plans. " +
 		"Ground truth of what ran comes from the probe/recording-wrapper trace. A case is non-trivial when at least one step deviates from ok/true.")
